@@ -404,7 +404,17 @@ func runC03(c *Ctx) {
 		// argument: toOCI of a Mount wrapper around the loop element
 		argOK := false
 		var elem ssa.Value
-		if tc, ok := call.Common().Args[1].(*ssa.Call); ok && c.U.CalleeIs(tc, "cdi", "(*Mount).toOCI") {
+		// the OCI mount may be kept in a local first: `mnt := (&Mount{m}).toOCI()`
+		amArg := call.Common().Args[1]
+		var mntLocal *ssa.Alloc
+		if ld, ok := amArg.(*ssa.UnOp); ok && ld.Op == token.MUL {
+			if a, ok := ld.X.(*ssa.Alloc); ok {
+				if vals := c.U.StoredValues(a); len(vals) == 1 {
+					amArg, mntLocal = vals[0], a
+				}
+			}
+		}
+		if tc, ok := amArg.(*ssa.Call); ok && c.U.CalleeIs(tc, "cdi", "(*Mount).toOCI") {
 			ps := c.U.Extend(c.U.PathsOf(tc.Call.Args[0]), ir.FieldByName(c.U.NamedType("cdi", "Mount"), "Mount"))
 			if len(ps) == 1 && ps[0].String() == ePath("Mounts")+"[*]" {
 				argOK = true
@@ -418,6 +428,15 @@ func runC03(c *Ctx) {
 		} else {
 			rc := removeMount.in.(ssa.CallInstruction)
 			argR := c.valueDesc(rc.Common().Args[1]) == ePath("Mounts")+"[*].ContainerPath"
+			if !argR && mntLocal != nil {
+				// the Destination of the very OCI mount that is added: toOCI sets it to the
+				// edit's containerPath (C03.1 mount field map)
+				if ld, ok := rc.Common().Args[1].(*ssa.UnOp); ok && ld.Op == token.MUL {
+					if fa, ok := ld.X.(*ssa.FieldAddr); ok && fa.X == ssa.Value(mntLocal) && ir.StructOf(fa.X.Type()).Field(fa.Field).Name() == "Destination" {
+						argR = true
+					}
+				}
+			}
 			// RemoveMount precedes AddMount in the iteration
 			var loopHdr *ssa.BasicBlock
 			for _, l := range ir.Loops(apply) {
